@@ -96,6 +96,8 @@ def int_len(ex, items) -> object:
         return z3.Length(items.s)
     if isinstance(items, SymSeq):
         return z3.BV2Int(items.length, False)
+    if isinstance(items, SymArr):
+        return items.length if z3.is_int(items.length) else z3.BV2Int(items.length, False)
     raise Unsupported(f"len of {type(items).__name__}")
 
 
@@ -491,7 +493,7 @@ def _conv(ex, st, src_v: V, dst_ty: str) -> Optional[V]:
         inner_ty = m.group(1) if m else ""
         inner = _conv(ex, st, v, inner_ty) if inner_ty and _type_head(inner_ty) not in ("", ) and not _same_kind(v, inner_ty) else v
         return BoxV(inner if inner is not None else v, "Box" if h == "Box" else "Rc")
-    if h == "BigInt":
+    if h in ("BigInt", "BigUint"):
         if isinstance(v, BV):
             return BigI(ex.to_int_expr(v))
         if isinstance(v, BigI):
@@ -600,6 +602,24 @@ def _try_convert(ex, st, v, dst):
 
 def _is_big(t: Optional[str]) -> bool:
     return t is not None and _type_head(t) in ("BigInt", "BigUint")
+
+
+@reg_pred(lambda c: c.trait is not None and _type_head(c.trait) in ("BitOrAssign", "BitOr") and _is_big(c.qself))
+def _big_bitor(ex, st, c, args, dty):
+    """acc | (v << k) is acc + v*2^k when acc < 2^k: the only use (7-bit group decoding); checked with the solver."""
+    a = as_big(ex, st, args[0]).e
+    b = as_big(ex, st, args[1]).e
+    k = _shift_of.get(b.get_id())
+    if k is None or ex.check(st.pc, z3.Or(a < 0, a >= (1 << k))) != "unsat":
+        raise Unsupported("BigUint bit-or of overlapping operands")
+    r = BigI(a + b)
+    if _type_head(c.trait) == "BitOrAssign":
+        write_through(ex, st, args[0], r)
+        return UNIT
+    return r
+
+
+_shift_of = {}
 
 
 _ARITH = {"Add": ("add", lambda a, b: a + b), "Sub": ("sub", lambda a, b: a - b), "Mul": ("mul", lambda a, b: a * b)}
@@ -902,6 +922,14 @@ def _slice_range(ex, st, rr, items, rng: Adt):
     else:
         raise Unsupported(f"range {rng.ty}")
     ok = z3.And(lo <= hi, hi <= n_int)
+    if isinstance(items, SymArr):
+        cap = len(items.elems)
+        lo_bv = BV(lo, 64, False)
+        sub = []
+        for j in range(cap):
+            sub.append(ex.ite_select(items.elems, BV(z3.If(lo + j < cap, lo + j, cap - 1), 64, False)) if cap else None)
+        res = SymArr(tuple(sub), hi - lo)
+        return [(ok, Effect(lambda s: ex.alloc(s, res, False))), (z3.Not(ok), Panic("slice index out of range"))]
     if isinstance(items, Bytes):
         sub = Bytes(z3.SubSeq(items.s, lo, hi - lo))
         return [(ok, Effect(lambda s: ex.alloc(s, sub, False))), (z3.Not(ok), Panic("slice index out of range"))]
@@ -1155,7 +1183,7 @@ def _iter_items(ex, st, v):
         return v.data[0]
     if isinstance(v, VecV):
         return v.items
-    if isinstance(v, (Arr, Bytes, SymSeq)):
+    if isinstance(v, (Arr, Bytes, SymSeq, SymArr)):
         return v
     raise Unsupported(f"not an iterator: {type(v).__name__}")
 
@@ -1189,11 +1217,17 @@ def _nat(ex, v: BV):
     return ex.to_int_expr(v)
 
 
+def _arbitrary_bytes_iter():
+    return LibV("iter", (Bytes(z3.Const(fresh("somebytes"), ByteSeq)),))
+
+
 @reg_pred(lambda c: c.trait is not None and _type_head(c.trait) == "Iterator" and c.method == "skip")
 def _iter_skip(ex, st, c, args, dty):
     it = args[0]
     if isinstance(it, LibV) and it.kind == "iter":
         items = it.data[0]
+        if isinstance(items, SymArr):
+            return _arbitrary_bytes_iter()  # skip/take never panic; the bytes only feed diagnostics
         n = _nat(ex, args[1])
         if isinstance(items, Bytes):
             L = z3.Length(items.s)
@@ -1366,7 +1400,12 @@ def _vec_extend(ex, st, c, args, dty):
     v = deref1(ex, st, r)
     add = _iter_items(ex, st, args[1])
     it = v.items
-    if isinstance(it, Bytes) and isinstance(add, Bytes):
+    if isinstance(add, SymArr) or isinstance(it, SymArr):
+        # contents of a vector extended by a symbolic-length slice: fresh bytes (only its length matters to callers here)
+        la = int_len(ex, it)
+        nv = VecV(Bytes(z3.Const(fresh("ext"), ByteSeq)))
+        st.pc.append(z3.Length(nv.items.s) == la + int_len(ex, add))
+    elif isinstance(it, Bytes) and isinstance(add, Bytes):
         nv = VecV(Bytes(z3.Concat(it.s, add.s)))
     elif isinstance(it, Arr) and isinstance(add, Arr):
         nv = VecV(Arr(it.elems + add.elems))
@@ -2206,7 +2245,9 @@ def _big_shift(ex, st, c, args, dty):
         raise Unsupported("BigInt shift by a symbolic amount")
     p = z3.IntVal(1 << k.as_long())
     if _type_head(c.trait) == "Shl":
-        return BigI(a * p)
+        r = a * p
+        _shift_of[r.get_id()] = k.as_long()
+        return BigI(r)
     return BigI(_floor_div(a, p))
 
 
@@ -2578,3 +2619,42 @@ def _vd_from_iter(ex, st, c, args, dty):
 @reg("[T]::join", "[T]::concat")
 def _slice_join(ex, st, c, args, dty):
     return fresh_obj("joined", "String")
+
+
+@reg("char::from_u32")
+def _char_from_u32(ex, st, c, args, dty):
+    x = ex.to_int_expr(args[0])
+    ok = z3.Or(z3.And(x >= 0, x < 0xD800), z3.And(x > 0xDFFF, x <= 0x10FFFF))
+    return [(ok, Adt("Option", "Some", (BV(x, 32, False),))), (z3.Not(ok), Adt("Option", "None", ()))]
+
+
+@reg("<BigUint as ToBigInt>::to_bigint")
+def _biguint_to_bigint(ex, st, c, args, dty):
+    return Adt("Option", "Some", (as_big(ex, st, args[0]),))
+
+
+@reg_pred(lambda c: c.trait is not None and _type_head(c.trait) == "BitAnd" and _is_big(c.qself))
+def _big_bitand(ex, st, c, args, dty):
+    a = as_big(ex, st, args[0]).e
+    b = z3.simplify(as_big(ex, st, args[1]).e)
+    if is_concrete(b) and b.as_long() == 1:
+        return BigI(a % 2)
+    raise Unsupported("BigInt bit-and")
+
+
+@reg_pred(lambda c: c.trait is not None and _type_head(c.trait) == "BitXor" and _is_big(c.qself))
+def _big_bitxor(ex, st, c, args, dty):
+    """zigzag decoding: (n >> 1) ^ -(n & 1)  ==  n/2 if n even else -(n/2) - 1   (second operand is 0 or -1)"""
+    a = as_big(ex, st, args[0]).e
+    b = as_big(ex, st, args[1]).e
+    if ex.check(st.pc, z3.And(b != 0, b != -1)) != "unsat":
+        raise Unsupported("BigInt xor with a general operand")
+    return BigI(z3.If(b == 0, a, -a - 1))
+
+
+@reg_pred(lambda c: c.trait is not None and _type_head(c.trait) == "ToString" and c.method == "to_string")
+def _to_string_generic(ex, st, c, args, dty):
+    v = deref(ex, st, args[0])
+    if isinstance(v, Str):
+        return v
+    return fresh_obj("string", "String")
